@@ -302,6 +302,12 @@ def run_witness(binpath, w):
             return {"cmd": "check --fix <%d programs>" % len(progs), "exit": 0, "stdout": "", "stderr": "",
                     "reproduced": bool(bad_items), "why": "; ".join(bad_items[:4])[:1800], "n_inputs": len(progs),
                     "failing_inputs": [progs[int(re.match(r"program (\d+)", b).group(1))] for b in bad_items][:6]}
+        elif kind == "rename":
+            f = os.path.join(tmpdir, w.get("filename", "w.gdn"))
+            with open(f, "w", encoding="utf-8") as fh:
+                fh.write(w["input"])
+            cmd = [binpath, "reftest-rename", f, str(w["offset"]), "--new-name", w["new_name"]]
+            stdin = None
         elif kind == "lsp":
             # a list of LSP messages replayed through `garden reftest-lsp`
             f = os.path.join(tmpdir, "s.jsonl")
